@@ -63,6 +63,17 @@ def cfgs_alloc(tier, inc):
     return out
 
 
+def cfgs_prefetch(tier, inc):
+    out = []
+    for macros in ([], ["SSE2"], ["X86"]):
+        for cxx in ("g++", "clang++"):
+            for opt in (("-O0", "-O1", "-O2") if tier != "quick" else ("-O0", "-O2")):
+                out.append(C.Config(macros, cxx=cxx, std="c++11" if cxx == "g++" else "c++17", opt=opt))
+    if tier != "quick":
+        out.append(C.Config(list(C.EVERYTHING), opt="-O2")); out.append(C.Config(["AVX2"], cxx="clang++", std="c++20", opt="-O1"))
+    return out
+
+
 PROPS = {
     "C01": {"id": "C01", "source": "c01.cpp", "files": INT_VEC_FILES, "min_configs": {"quick": 8, "thorough": 30},
             "configs": cfgs_with_san, "ub_is_violation": True, "digest_binding": True},
@@ -95,10 +106,17 @@ PROPS = {
     "C17": {"id": "C17", "source": "c17.cpp", "files": INT_VEC_FILES + [VEC + "Vectors.hpp", "include/avel/Misc.hpp"], "min_configs": {"quick": 8, "thorough": 30}},
     "C18": {"id": "C18", "source": "c18.cpp", "files": ["include/avel/Aligned_allocator.hpp"], "min_configs": {"quick": 6, "thorough": 10}, "configs": cfgs_alloc, "ub_is_violation": True,
             "max_success": {"quick": 500, "thorough": 20000}},
+    "C20": {"id": "C20", "source": "c20.cpp", "files": ["include/avel/Cache.hpp"], "min_configs": {"quick": 6, "thorough": 12}, "configs": cfgs_prefetch, "max_success": {"quick": 3000, "thorough": 100000},
+            "optional_classes": []},
     "C02": {"id": "C02", "source": "c02.cpp", "files": INT_VEC_FILES + FLT_VEC_FILES, "min_configs": {"quick": 8, "thorough": 30}, "digest_binding": True},
 }
 
 MANIFEST_TEXT = {
+    "C20": {
+        "technique": "property-based testing / fault injection by placement: enumerated + rapidcheck-generated prefetch calls with pointers at every cache-line offset, next to and inside PROT_NONE pages, null and misaligned, counts 0..3 pages, all cache levels, typed and untyped; signal guard + arena checksum + /proc/self/maps protection check",
+        "level": "Generated-input search over (overload, cache level, pointer placement, offset, n) for prefetch_read / prefetch_write in builds {no macro, AVEL_X86, AVEL_SSE2} x {g++, clang++} x {-O0, -O2 (+ -O1 in thorough)}: the call must return without SIGSEGV/SIGBUS/SIGILL (a fault becomes a failing Case), every byte of the accessible arena must still hold its sentinel and the kernel's view of the six arena pages' protections must be unchanged.",
+        "note": "Trusted: mmap/mprotect, /proc/self/maps, host CPU (prefetch instructions never fault architecturally), compilers. n is bounded to three pages because the loop is linear in n. AVEL_PREFETCH alone cannot be built (Verify_capabilities tests a macro no compiler defines); that is C19's finding.",
+    },
     "C18": {
         "technique": "model-based (stateful) property testing: rapidcheck-generated and enumerated allocate/deallocate/fill/verify/rebind/std::vector histories on 16 Aligned_allocator<T,A> instantiations, checked after every command against a shadow map of live ranges, in the three implementations selected by the build, each also under ASan+UBSan and UBSan-trap; libFuzzer target in the thorough tier",
         "level": "Generated-history search: histories (shrunk as one value) of allocate(n) with n biased to 0, 1, odd byte sizes and exact multiples of A, deallocation in arbitrary order, re-fill, reallocation moves, rebound allocators and std::vector growth/copy/move/swap; invariants after every command: pointer aligned to A, live ranges pairwise disjoint, every byte (including the last) of every live block still holds its pattern; every block freed exactly once with its own n. Builds: no macro C++11/14 (over-allocation), no macro C++17/20 (aligned_alloc), AVEL_SSE2 (_mm_malloc); ASan reports (overflow, invalid free, leak) kill the process inside the Case and become a violation with that history as replay; UBSan runs in trap mode so undefined behaviour is a failing, shrinkable Case.",
